@@ -15,7 +15,7 @@ pub use poulpy_core::api::*;
 pub use poulpy_core::layouts::*;
 #[allow(unused_imports)]
 pub use poulpy_core::{EncryptionLayout, ScratchTakeCore};
-use poulpy_bin_fhe::bdd_arithmetic::Cmux;
+use poulpy_bin_fhe::bdd_arithmetic::{Cmux, Cswap};
 use std::collections::HashMap;
 
 #[derive(Clone, Copy, Debug, PartialEq, Eq)]
@@ -595,7 +595,7 @@ pub const CORE_OPS: &[&str] = &[
     "glwe_packer", "glwe_from_lwe", "lwe_from_glwe", "lwe_sample_extract",
     // external products
     "glwe_external_product", "glwe_external_product_assign", "gglwe_external_product", "gglwe_external_product_assign", "ggsw_external_product",
-    "ggsw_external_product_assign", "cmux", "cmux_assign", "cmux_assign_neg", "ggsw_from_gglwe",
+    "ggsw_external_product_assign", "cmux", "cmux_assign", "cmux_assign_neg", "cswap", "ggsw_from_gglwe",
     // multiplications
     "glwe_mul_plain", "glwe_mul_plain_assign", "glwe_mul_const", "glwe_mul_const_assign", "glwe_tensor_apply", "glwe_tensor_square_apply", "glwe_tensor_apply_add_assign",
     "glwe_tensor_relinearize", "glwe_tensor_decrypt",
